@@ -123,9 +123,6 @@ Hypothesis T0 : TI V lb1 n0 pvs [] paths.
 Hypothesis Htc : forall s c, tchild V n2 s c = tchild V n0 s c.
 Hypothesis RF : CRefines V n2 tbl sts idmap.
 Hypothesis Hnode2 : forall t, node V n2 t <-> exists w, N0 V n0 w t.
-Hypothesis Hget2 : forall s w, N0 V n0 w s -> exists st, nfa_get V n2 s = Ok st /\ n_fail st = failof V n2 s /\ n_outpos st = outposof V n2 s.
-Hypothesis Hfail2 : forall w t, N0 V n0 w t -> N0 V n0 (Cert.lsuf (child0 V n0) (tl w)) (failof V n2 t).
-Hypothesis Hout2 : forall w t, N0 V n0 w t -> OutOK V lb1 n0 pvs n2 t.
 Hypothesis Hne : forall p v, In (p, v) pvs -> p <> [].
 Hypothesis EKc : forall i st, nget i (n_states n0) = Some st -> NoDup (map fst (n_edges st)).
 
@@ -240,6 +237,10 @@ Proof.
     unfold f. rewrite Hi. apply in_seq. lia.
 Qed.
 
+Hypothesis Hget2 : forall s w, N0 V n0 w s -> exists st, nfa_get V n2 s = Ok st /\ n_fail st = failof V n2 s /\ n_outpos st = outposof V n2 s.
+Hypothesis Hfail2 : forall w t, N0 V n0 w t -> N0 V n0 (Cert.lsuf (child0 V n0) (tl w)) (failof V n2 t).
+Hypothesis Hout2 : forall w t, N0 V n0 w t -> OutOK V lb1 n0 pvs n2 t.
+
 Lemma nseq_in_c : forall k a x, In x (nseq a k) -> a <= x < a + N.of_nat k.
 Proof. induction k as [|k IH]; intros a x; cbn [nseq]; [intros []|]. intros [<-|H]; [lia|]. apply IH in H. lia. Qed.
 
@@ -352,10 +353,10 @@ Proof.
     - eapply tf_nstates_nodes; try eassumption; exact len_utf8_pos. }
   unfold cw_cert_ok. cbn [cw_kind cw_states cw_outputs cw_mapper is_standard mkind_eqb andb]. unfold cwc_cert_ok.
   apply (cert_ok_complete V veqb veqb_refl n0 n2 pvs paths (carr_to_list a2) idmap (mp_table mp) T0 Htc RF Hnode).
+  - exact Hne.
+  - exact EK0.
   - intros s w Hw. pose proof (N0_lt V _ len_utf8_pos n0 pvs paths T0 w s Hw) as Hl. destruct (Hst s Hl) as (st & _ & H2 & _).
     exists st. unfold nfa_get, failof, outposof. rewrite Hns. apply N.ltb_lt in Hl. rewrite Hl, H2. auto.
   - exact Hfail.
   - exact Hoks.
-  - exact Hne.
-  - exact EK0.
 Qed.
